@@ -84,7 +84,7 @@ def tlc_model(ctx, label, c, dump, props=True, small=True):
     return res, hists
 
 
-def replay(ctx, kind, c, hists):
+def replay_histories(ctx, kind, c, hists):
     """every maximal TLC history: its readings are fed to the real plan generator; every step the implementation
     takes must be a step of the specification (trie of all histories; exact ties may go either way)"""
     tries = build_trie(kind, c, hists, c["MaxIter"])
@@ -190,7 +190,7 @@ def run(ctx):
         if unbounded:
             ctx.note(f"{label}: explored without any bound on the number of visits (MaxIter {c['MaxIter']} > proven bound "
                      f"{c['MaxIter'] - 1}); longest behaviour {max(len(h['hist']) for h in hists)} visits")
-        replay(ctx, c["Plan"], c, hists)
+        replay_histories(ctx, c["Plan"], c, hists)
         # vacuity guard: the interesting branches must have been taken by some history of this instance
         nb = sum(1 for h in hists if h["nback"] > 0)
         nt = sum(1 for h in hists if any(e["gt"] for e in h["hist"]))
